@@ -68,7 +68,9 @@ Lemma timeouts_kinv g now c : kinv c -> kinv (fst (fst (chandle_timeouts g now c
 Proof.
   intros H. unfold chandle_timeouts. destruct (ctmo_u now c); [cbn; split; auto|].
   unfold ctmo_t3. destruct (cnt3 c <? now).
-  - destruct (2 <? couttest c); [cbn; split; auto|]. cbn [negb]. unfold ctmo_t2.
+  - destruct (negb (cumt c =? 0)).
+    { cbn [negb]. unfold ctmo_t2. match goal with |- context [if ?B then confirm_outstanding now ?X else _] => destruct B end; cbn; split; auto. }
+    destruct (2 <? couttest c); [cbn; split; auto|]. cbn [negb]. unfold ctmo_t2.
     match goal with |- context [if ?B then confirm_outstanding now ?X else _] => destruct B end; cbn; split; auto.
   - cbn [negb]. unfold ctmo_t2. destruct (_ && _ && _); cbn; split; auto.
 Qed.
@@ -163,12 +165,19 @@ Lemma client_testfr_t1_not_before now c : now <= cumt c -> ctmo_u now c = false.
 Proof. intros H. unfold ctmo_u. assert (E : cumt c <? now = false) by (apply Z.ltb_ge; exact H). rewrite E. apply andb_false_r. Qed.
 
 (* t3: after t3 without receiving, TESTFR act is written and supervised with t1 *)
-Lemma client_t3_sends_testfr g now c : ctmo_u now c = false -> cnt3 c < now -> couttest c <= 2 ->
+Lemma client_t3_sends_testfr g now c : cumt c = 0 -> cnt3 c < now -> couttest c <= 2 ->
   exists c1, ctmo_t3 g now c = (c1, true, [CTx (enc_u 67) (cwmode c =? 0)]) /\ cumt c1 = now + cc_t1 g * 1000 /\
              cnt3 c1 = now + cc_t3 g * 1000 /\ couttest c1 = couttest c + 1.
 Proof.
-  intros _ H1 H2. unfold ctmo_t3. assert (E1 : cnt3 c <? now = true) by (apply Z.ltb_lt; exact H1).
-  assert (E2 : 2 <? couttest c = false) by (apply Z.ltb_ge; exact H2). rewrite E1, E2. eexists. split; [reflexivity|]. cbn. repeat split.
+  intros H0 H1 H2. unfold ctmo_t3. assert (E1 : cnt3 c <? now = true) by (apply Z.ltb_lt; exact H1).
+  assert (E2 : 2 <? couttest c = false) by (apply Z.ltb_ge; exact H2). rewrite E1, H0, E2. cbn [negb Z.eqb]. eexists. split; [reflexivity|]. cbn. repeat split.
+Qed.
+(* while a TESTFR act is unanswered no further one is sent: t3 is re-armed, the t1 deadline of the pending one stays *)
+Lemma client_t3_pending g now c : cumt c <> 0 -> cnt3 c < now ->
+  exists c1, ctmo_t3 g now c = (c1, true, []) /\ cumt c1 = cumt c /\ cnt3 c1 = now + cc_t3 g * 1000.
+Proof.
+  intros H0 H1. unfold ctmo_t3. assert (E1 : cnt3 c <? now = true) by (apply Z.ltb_lt; exact H1).
+  assert (E0 : cumt c =? 0 = false) by (apply Z.eqb_neq; exact H0). rewrite E1, E0. cbn [negb]. eexists. split; [reflexivity|]. cbn. split; reflexivity.
 Qed.
 Lemma client_t3_quiet g now c : now <= cnt3 c -> ctmo_t3 g now c = (c, true, []).
 Proof. intros H. unfold ctmo_t3. assert (E : cnt3 c <? now = false) by (apply Z.ltb_ge; exact H). rewrite E. reflexivity. Qed.
